@@ -11,21 +11,21 @@ Local Open Scope N_scope.
 (* Refinement, one step: from any state satisfying the invariant and related to an abstract map of
    arrays, an operation of the implementation (i) preserves the invariant, (ii) returns exactly what
    the map-of-arrays specification returns, error kind included, and (iii) commutes with the
-   abstraction.  [mh_fits] only excludes an allocation whose charge would exceed usize::MAX. *)
+   abstraction.  No side condition: an allocation whose charge would exceed usize::MAX is an
+   InvalidSize error on both sides (ManualHeap::alloc checks the charge first since f05dd1f). *)
 Theorem C09_mh_refines : forall s sp o,
-  Inv s -> Sim s sp -> mh_fits s o ->
+  Inv s -> Sim s sp ->
   Inv (fst (mh_step s o))
   /\ snd (spec_step sp o (snd (mh_step s o))) = snd (mh_step s o)
   /\ Sim (fst (mh_step s o)) (fst (spec_step sp o (snd (mh_step s o)))).
-Proof. exact mh_refines_lemma. Qed.
+Proof. exact mh_refines_u. Qed.
 
 (* ... lifted to every history from the empty heap (mh_exec is a fold_left over the operations) *)
 Theorem C09_mh_refines_history : forall os,
-  fits_hist mh_empty os ->
   Inv (mh_exec mh_empty os)
   /\ snd (spec_run sp_empty os (snd (mh_run mh_empty os))) = snd (mh_run mh_empty os)
   /\ Sim (mh_exec mh_empty os) (fst (spec_run sp_empty os (snd (mh_run mh_empty os)))).
-Proof. intros os H. exact (mh_refines_history_lemma os mh_empty sp_empty inv_empty sim_empty H). Qed.
+Proof. intros os. exact (mh_refines_history_lemma os mh_empty sp_empty inv_empty sim_empty). Qed.
 
 Theorem C09_mh_run_is_fold : forall os s, fst (mh_run s os) = fold_left (fun st o => fst (mh_step st o)) os s.
 Proof. exact mh_run_exec. Qed.
@@ -38,26 +38,26 @@ Proof. exact load_after_store_lemma. Qed.
 (* ... and after any later history that neither stores to that cell nor frees that buffer
    (allocations, frees and stores elsewhere, failing operations of every kind included) *)
 Theorem C09_load_after_store_history : forall s h off v s1 os,
-  Inv s -> mh_store s h off v = (s1, ROkUnit) -> fits_hist s1 os -> Forall (leaves_cell h off) os ->
+  Inv s -> mh_store s h off v = (s1, ROkUnit) -> Forall (leaves_cell h off) os ->
   mh_load (mh_exec s1 os) h off = ROkVal v.
 Proof. exact load_after_store_history. Qed.
 
 (* no operation changes any other live buffer (an allocation never lands on a live handle) *)
 Theorem C09_isolation : forall s o h d,
-  Inv s -> mh_fits s o -> abs s h = Some d -> op_target o <> Some h ->
+  Inv s -> abs s h = Some d -> op_target o <> Some h ->
   abs (fst (mh_step s o)) h = Some d.
-Proof. exact isolation_lemma. Qed.
+Proof. exact isolation_u. Qed.
 
 (* every error leaves the heap -- slot table, free list and charge -- literally unchanged *)
 Theorem C09_errors_change_nothing : forall s o,
-  Inv s -> mh_fits s o -> is_err (snd (mh_step s o)) = true -> fst (mh_step s o) = s.
-Proof. exact mh_err_unchanged. Qed.
+  Inv s -> is_err (snd (mh_step s o)) = true -> fst (mh_step s o) = s.
+Proof. exact mh_err_unchanged_u. Qed.
 
-(* without the guard the raw API is NOT error-atomic: ManualHeap::alloc installs the slot before its
-   checked_add on the charge (witness: 2^63 bytes live, a further 2^63-byte request) *)
-Theorem C09_raw_alloc_overflow_refuted :
-  exists s o, Inv s /\ is_err (snd (mh_step s o)) = true /\ fst (mh_step s o) <> s.
-Proof. exact raw_alloc_overflow_refuted_lemma. Qed.
+(* in particular an allocation whose charge would not fit a usize is a clean InvalidSize error
+   (before f05dd1f it had already installed the slot: Proofs/ManualHeapProofs.v, "HISTORICAL") *)
+Theorem C09_alloc_overflow_clean : forall s n,
+  USIZE <= bytes s + n * VALUE_SIZE -> mh_step s (MAlloc n) = (s, RErr EInvalidSize).
+Proof. intros s n H. apply nofit_step. cbn [mh_fits]. lia. Qed.
 
 (* a handle that denotes no live buffer is rejected by every access, with the kind telling stale
    (UseAfterFree / DoubleFree) from never issued (InvalidHandle), and nothing changes *)
@@ -75,9 +75,9 @@ Proof. exact free_makes_stale. Qed.
 
 (* ... and stays dead until an allocation hands that very handle out again *)
 Theorem C09_stale_stays_stale : forall s o h,
-  Inv s -> mh_fits s o -> abs s h = None -> snd (mh_step s o) <> ROkHandle h ->
+  Inv s -> abs s h = None -> snd (mh_step s o) <> ROkHandle h ->
   abs (fst (mh_step s o)) h = None.
-Proof. exact stale_stays_stale. Qed.
+Proof. exact stale_stays_stale_u. Qed.
 
 (* bounds: in range succeeds with the stored value, out of range is OutOfBounds and changes nothing *)
 Theorem C09_bounds : forall s h d off,
@@ -90,12 +90,11 @@ Proof. exact bounds_lemma. Qed.
 (* accounting: after every history the charge is 8 bytes per slot of the live buffers of the
    abstract map ... *)
 Theorem C09_accounting : forall os,
-  fits_hist mh_empty os ->
   bytes (mh_exec mh_empty os) = 8 * sm_total (live (fst (spec_run sp_empty os (snd (mh_run mh_empty os)))))
   /\ bytes (mh_exec mh_empty os) = 8 * live_total (allocs (mh_exec mh_empty os))
   /\ bytes (mh_exec mh_empty os) < USIZE.
 Proof.
-  intros os H. destruct (mh_refines_history_lemma os mh_empty sp_empty inv_empty sim_empty H) as [HI [_ HS]].
+  intros os. destruct (mh_refines_history_lemma os mh_empty sp_empty inv_empty sim_empty) as [HI [_ HS]].
   rewrite (sim_total _ _ HS). split; [|split]; [exact (accounting_lemma _ HI)|exact (accounting_lemma _ HI)|exact (inv_lt _ HI)].
 Qed.
 
@@ -112,10 +111,10 @@ Theorem C09_handle_reuse_lifo : forall s h s1 n,
 Proof. exact handle_reuse_lifo_lemma. Qed.
 
 (* the implementation never indexes its slot table out of range *)
-Theorem C09_never_panics : forall s o, Inv s -> mh_fits s o -> snd (mh_step s o) <> RPanic.
-Proof. exact mh_never_panics. Qed.
+Theorem C09_never_panics : forall s o, Inv s -> snd (mh_step s o) <> RPanic.
+Proof. exact mh_never_panics_u. Qed.
 
-(* ---- the program-facing surfaces: NO guard (ensure_heap_capacity establishes it), for every
+(* ---- the program-facing surfaces, for every
    max_heap_bytes (a u64) and every value of the GC-heap term *)
 Theorem C09_vm_refines : forall sf maxh gc s sp o,
   maxh < USIZE -> Inv s -> Sim s sp ->
@@ -141,15 +140,32 @@ Theorem C09_vm_errors_change_nothing : forall sf maxh gc s o,
   maxh < USIZE -> Inv s -> is_err (snd (vm_step sf maxh gc s o)) = true -> fst (vm_step sf maxh gc s o) = s.
 Proof. exact vm_errors_change_nothing_lemma. Qed.
 
-(* negative, non-integer and zero-size operands are errors that change nothing -- on the builtins
-   always (free(null) is the documented no-op), on the opcodes for everything except Free *)
+(* negative, non-integer and zero-size operands are errors that change nothing.  [vm_silent] is
+   exactly: free(null) on both surfaces (the documented no-op) and free(<negative int>) as opcode 29 *)
 Theorem C09_vm_malformed_rejected : forall sf maxh gc s o,
   maxh < USIZE -> vop_raw o = None -> vm_silent sf o = false ->
   is_err (snd (vm_step sf maxh gc s o)) = true /\ fst (vm_step sf maxh gc s o) = s.
 Proof. exact vm_malformed_rejected_lemma. Qed.
 
-(* opcode 29 (Free) swallows a negative or non-integer handle: the access names no buffer, yet is
-   not reported (known finding KF-C09-1; the builtin reports NegativeMemoryIndex / TypeError) *)
+Theorem C09_vm_silent_characterised : forall sf o,
+  vm_silent sf o = true <->
+  (o = VFree ANull) \/ (sf = SOpcode /\ exists z, (z < 0)%Z /\ o = VFree (AInt z)).
+Proof.
+  intros sf o. split.
+  - destruct sf, o as [a|a|h o|h o v]; cbn [vm_silent]; try discriminate; destruct a as [z| |]; try discriminate; auto.
+    intro H. right. split; [reflexivity|]. exists z. split; [lia|reflexivity].
+  - intros [->|[-> [z [Hz ->]]]]; [destruct sf; reflexivity|cbn [vm_silent]; lia].
+Qed.
+
+(* a non-integer operand of opcode 29 is a TypeError, as in the builtin (repaired in 19374fd) *)
+Theorem C09_opcode_free_nonint_rejected : forall maxh gc s,
+  vm_step SOpcode maxh gc s (VFree AOther) = (s, RErr ETypeError)
+  /\ vm_step SBuiltin maxh gc s (VFree AOther) = (s, RErr ETypeError).
+Proof. intros. split; reflexivity. Qed.
+
+(* STILL OPEN (KF-C09-1, narrowed): opcode 29 ignores a NEGATIVE INT handle -- the access names no
+   buffer, yet is not reported, while the builtin reports NegativeMemoryIndex.  The behaviour is pinned
+   as intended by aelys/tests/memory_tests.rs::test_negative_handle_free, hence recorded, not repaired. *)
 Theorem C09_opcode_free_negative_refuted :
   exists maxh gc s z, (z < 0)%Z /\ Inv s /\ vm_step SOpcode maxh gc s (VFree (AInt z)) = (s, ROkUnit)
                       /\ vm_step SBuiltin maxh gc s (VFree (AInt z)) = (s, RErr ENegativeIndex).
@@ -268,8 +284,7 @@ Definition demo : list mop :=
    MLoad 0 1; MFree 0; MLoad 7 0; MStore 1 3 1; MAlloc 4; MLoad 0 1; MLoad 2 0; MFree 1; MFree 2; MAlloc 1].
 
 Example C09_nonvacuous_history :
-  fits_hist mh_empty demo
-  /\ snd (mh_run mh_empty demo) =
+  snd (mh_run mh_empty demo) =
      [ROkHandle 0; ROkHandle 1; ROkUnit; ROkHandle 2; ROkUnit; ROkUnit; ROkUnit; ROkVal 9;
       RErr EUseAfterFree; RErr EDoubleFree; RErr EInvalidHandle; RErr EOutOfBounds; ROkHandle 0; ROkVal VNULL;
       ROkVal 5; ROkUnit; ROkUnit; ROkHandle 2]
